@@ -89,6 +89,7 @@ type decEvent struct {
 	Sent  []string          `json:"sent"`
 	Ver   string            `json:"ver,omitempty"`
 	F     map[string]string `json:"f,omitempty"`
+	F2    map[string]string `json:"f2,omitempty"` // the fields after all the queries, when they differ from F
 	TEmp  *bool             `json:"tempEmpty,omitempty"`
 	EEmp  *bool             `json:"envEmpty,omitempty"`
 	Own   *view             `json:"own,omitempty"`   // the object's own level
@@ -225,6 +226,10 @@ func decodeFull(fam string, lvl byte, raw string, deep bool) (ev *decEvent) {
 				ev.Re.Own = v3OwnView(ro, lvl)
 			}
 		}
+		if f2 := v3FieldsOf(o, lvl); !sameFields(f2, ev.F) || v3VerLabel(o.b.Ver) != ev.Ver {
+			f2["Ver"] = v3VerLabel(o.b.Ver)
+			ev.F2 = f2
+		}
 		return
 	}
 	o, err := v2Decode(lvl, raw)
@@ -281,7 +286,22 @@ func decodeFull(fam string, lvl byte, raw string, deep bool) (ev *decEvent) {
 			ev.Re.Own = v2OwnView(ro, lvl)
 		}
 	}
+	if f2 := v2FieldsOf(o, lvl); !sameFields(f2, ev.F) {
+		ev.F2 = f2
+	}
 	return
+}
+
+func sameFields(a, b map[string]string) bool {
+	if len(a) != len(b) {
+		return false
+	}
+	for k, v := range a {
+		if b[k] != v {
+			return false
+		}
+	}
+	return true
 }
 
 // decodeWatched: decodeFull with the C12 watchdog: a call on an input of at most 1 KiB that has not
